@@ -194,6 +194,8 @@ def future_mix(pools=(0, 1, 2)):
         # polled once (the poll drains the queue and parks it in WaitingForPoll), then dropped / never polled again
         out.append(make('FD_PO_DR_D_Fire_p%d' % p, 1, p, 1, [FD(1, aw=[1], label='f'), PO('f'), DR('f'), D(1)], [FIRE(1)]))
         out.append(make('FD_D_PO_Fire_p%d' % p, 1, p, 1, [FD(1, aw=[1], label='f'), D(1), PO('f')], [FIRE(1)]))
+        # ... and dropped after the wake-up, when a pool thread may have taken the parked queue over and be inside one of the jobs queued behind
+        out.append(make('FD_D_D_PO_DR_S_Fire_p%d' % p, 1, p, 1, [FD(1, aw=[1], label='f'), D(1), D(1), PO('f'), DR('f'), S(1)], [FIRE(1)]))
     return out
 
 
@@ -365,7 +367,7 @@ def max_families():
     out.append(make('spawn_thread_race_p1', 2, 1, 0, [SPAWN(), D(1), S(1)], [D(2), S(2)], extra_pool=2))
     out.append(make('raise_max_p0', 2, 0, 0, [D(1), SETMAX(2), D(2), D(1)], [S(1), S(2)], extra_pool=2))
     # a pool thread has been killed by a panicking job and is reaped by one caller while another caller schedules work
-    out.append(make('panic_reap_race_p2', 5, 2, 0, [D(1, panic=True), D(2), S(2), BARRIER(), D(3)], [BARRIER(), D(4), D(5)], extra_pool=3))
+    out.append(make('panic_reap_race_p2', 5, 2, 0, [D(2), D(1, panic=True), BARRIER(), D(3)], [BARRIER(), D(4), D(5)], extra_pool=3))
     return out
 
 
@@ -441,6 +443,9 @@ def for_property(prop, tier, seed=0):
             fam += three_thread((0, 1, 2))
     elif prop == 'C06':
         fam = future_mix((0, 1) if quick else (0, 1, 2)) + spurious_families((0, 1) if quick else (0, 1, 2))
+        # the awaiting task runs the queue, another thread's sync is blocked behind the suspended operation, a third thread fires the event
+        fam += [make('FDaw_S_Fire_p%d' % p, 1, p, 1, [FD(1, aw=[1], then='await')], [S(1)], [FIRE(1)]) for p in (0, 1)]
+        fam += three_thread((0,))[1:2]
         if not quick:
             fam += three_thread((0, 1, 2))
     elif prop == 'C07':
